@@ -184,9 +184,11 @@ static void do_api(op_t op) {
                         vfail("PS.owed", MSG[m->mb[k].msg].sys ? "PS.owed|sys" : "PS.owed", "the loop stopped but message #%d (topic %s) owed to RUNNING module %s was never handed over", m->mb[k].msg,
                               MSG[m->mb[k].msg].topic < NTOPIC ? TOPIC[MSG[m->mb[k].msg].topic] : "-", m->name);
                     for (int k = m->nmb - 1; k >= 0; k--) if (m->mb[k].optional) mb_remove(i, k);
-                } else {       /* discarded for everybody else */
-                    for (int k = 0; k < m->nmb; k++) if (!m->mb[k].optional && m->mb[k].kind == 0) MSG[m->mb[k].msg].owed--;
-                    m->nmb = 0;
+                } else {       /* discarded for everybody else - except what a batching module had already received and holds: whether that survives the loop end is unspecified (optional) */
+                    int w = 0;
+                    for (int k = 0; k < m->nmb; k++) { pend_t e = m->mb[k]; if (!e.optional && e.kind == 0) MSG[e.msg].owed--;
+                        if (e.kind == 0 && e.maybe_recvd && m->st == S_PAUSED) { e.optional = 1; m->mb[w++] = e; } }
+                    m->nmb = w;
                 }
             }
             CX.quit = 0; mtimer_t *t = mt_find(-1, -3); if (t) t->armed = 0;
@@ -200,6 +202,7 @@ static void do_api(op_t op) {
             if (tick_owed) { tick_owed = 0; post_push(POST_TICK, -1, 1); mon_flush(); }   /* ticks: an upper bound on frequency only, hence optional */
             if (inj == EBADF) { if (rc < 0) { CX.quit = 1; CX.quit_code = EBADF; } }
             else if (rc < 0 && ON(R_LP)) vfail("LP.ret", "LP.ret|error", "m_ctx_dispatch returned %d although polling did not fail", rc);
+            for (int i = 0; i < NM; i++) if (MD[i].present && MD[i].st == S_RUNNING) for (int k = 0; k < MD[i].nmb; k++) MD[i].mb[k].maybe_recvd = 1;
             if (rc > 0 || cb_total != cb_before) check_pass("a batch of events was processed");      /* also a batch whose only event was a poison pill (it ran on_stop) */
             last_dispatch_rc = rc; obs(rc > 0 ? rc : 0);
             for (int i = 0; i < NM; i++) { mod_t *m = &MD[i]; if (!m->batch_due) continue;
